@@ -296,6 +296,29 @@ fn save_replay<P: Property>(case: &P::Case, fail: &Failure, seed: u64, tier: Tie
   path
 }
 
+/// Shrunk failures of earlier runs kept under /verif/regressions/<ID>/*.json (replay-file format,
+/// committed): every run of the property executes them first, bypassing the generators.
+fn committed_regressions<P: Property>() -> Vec<P::Case> {
+  let dir = verif_root().join("regressions").join(P::ID);
+  let mut files: Vec<PathBuf> = match std::fs::read_dir(&dir) {
+    Ok(rd) => rd.filter_map(|e| e.ok().map(|e| e.path())).filter(|p| p.extension().map(|x| x == "json").unwrap_or(false)).collect(),
+    Err(_) => return Vec::new(),
+  };
+  files.sort();
+  let mut out = Vec::new();
+  for f in files {
+    let case = std::fs::read_to_string(&f)
+      .ok()
+      .and_then(|t| serde_json::from_str::<Value>(&t).ok())
+      .and_then(|v| serde_json::from_value::<P::Case>(v.get("case").cloned().unwrap_or(v)).ok());
+    match case {
+      Some(c) => out.push(c),
+      None => eprintln!("note: regression file {f:?} does not decode as a {} case; skipped", P::ID),
+    }
+  }
+  out
+}
+
 pub fn replay<P: Property>(path: &Path, tier: Tier) -> i32 {
   let known = Arc::new(KnownFindings::load(&verif_root().join("known_findings.txt")));
   let text = match std::fs::read_to_string(path) {
@@ -402,7 +425,9 @@ pub fn run_property<P: Property>(tier: Tier) -> i32 {
   // fixed regression cases first (single thread)
   {
     let ctx = Ctx { tier, seed, replay: false, known: known.clone() };
-    for case in P::fixed_cases(tier) {
+    let mut fixed = P::fixed_cases(tier);
+    fixed.extend(committed_regressions::<P>());
+    for case in fixed {
       let o = run_guarded::<P>(&case, &ctx);
       if let Some(f) = record(&case, &o, true) {
         let path = save_replay::<P>(&case, &f, seed, tier);
